@@ -16,6 +16,7 @@ META = {
                   "assumption that loop-thread callbacks do not interleave with each other; small scope (ids<=4, requests<=5).",
     "design_ref": "5.2 C09",
 }
+META["level_text"] += _driver.SYSTEM_LEVEL_TEXT
 
 
 def run(ctx):
